@@ -68,6 +68,10 @@ def h_orig_cmdt(ex, prop, L, holds=(0,), interval=None, windows='sym', rewind=No
 
     def send_cts():
         remaining = nseg - st['got']
+        if remaining <= 0:
+            # the originator went on sending while the responder had not cleared anything
+            ex.claim(tag + '.fd.orig.data_sent_without_clearance', False, {'got': st['got'], 'nseg': nseg})
+            return
         k = st['grant_no']
         if st['holds_left'] is None:
             st['holds_left'] = holds[k] if k < len(holds) else 0
@@ -367,6 +371,8 @@ def jobs(prop, tier):
                 J('h_orig_bam', L=L)
         for L in ((105, 165) if q else range(122, 181)):
             J('h_orig_cmdt', L=L, windows=255)
+    # paced connection-mode transfer (minimum_tp_rts_cts_dt_interval) against a peer that grants less than remains
+    J('h_orig_cmdt', L=245, interval='1/100')
     J('h_resp_cmdt', L=181, session=7)
     J('h_orig_cmdt', L=181, holds=[1, 0, 1])
     # retransmission requests: the responder re-requests segments it already received
